@@ -174,7 +174,24 @@ pub fn run(run: &Run) {
             }
             // placeholder spellings: the prefix followed by identifier characters
             let ph = f.e.atom.prefix_placeholder;
-            for tail in ["", "a", "0", "_", "x-y", "甲"] {
+            // ... incl. tails that end in a proper prefix of a copula made of name characters
+            // (ASCII/LaTeX '-' / '--', Han 具 将 现 曾): at the very end of the input the copula
+            // look-ahead sees a slice shorter than the copula
+            let mut tails: Vec<String> = ["", "a", "0", "_", "x-y", "甲"].iter().map(|s| s.to_string()).collect();
+            for cop in f.copulas() {
+                let chars: Vec<char> = cop.chars().collect();
+                for k in 1..chars.len() {
+                    let p: String = chars[..k].iter().collect();
+                    if p.chars().all(|c| c.is_alphanumeric() || c == '-' || c == '_') {
+                        for t in [p.clone(), format!("a{p}")] {
+                            if !tails.contains(&t) {
+                                tails.push(t);
+                            }
+                        }
+                    }
+                }
+            }
+            for tail in tails.iter().map(|s| s.as_str()) {
                 let spelled = format!("{ph}{tail}");
                 let s = format!("{}{}{} {}{} a{}", c.brackets.0, emit::connecter(&f, tag), c.separator, spelled, c.separator, c.brackets.1);
                 cases.push((s, Some(R::image(tag, 0, vec![R::word("a")]))));
